@@ -130,6 +130,10 @@ func (v *visitor) IdentifierNode(node *ast.IdentifierNode) reflect.Type {
 		if t.Ambiguous {
 			return v.error(node, "ambiguous identifier %v", node.Value)
 		}
+		if t.Method {
+			// The VM fetches fields and map entries only; a method can only be called.
+			return v.error(node, "method %v used as a value, not called", node.Value)
+		}
 		return t.Type
 	}
 	if !v.strict {
